@@ -1,8 +1,8 @@
 ----------------------------- MODULE Judge_C09 -----------------------------
 (* Judges the closest-genomes list of query results (property C09): r.list[i] = [g, d, mt]. *)
-EXTENDS Classify, Judge
+EXTENDS World, Judge
 
-Clauses(r) ==
+ClItem(r) ==
   LET exp == ClosestList(r.d, r.N, {}) IN
   << <<"no-error", r.ok>>,
      <<"length-is-min-N-nrefs", r.ok => Len(r.list) = Min2(r.N, Len(r.d))>>,
@@ -11,6 +11,21 @@ Clauses(r) ==
      <<"taxon-assigned-by-distance-alone", r.ok => \A i \in DOMAIN r.list : r.list[i].g \in DOMAIN r.d =>
             r.list[i].mt = MatchingTaxon(r.parent, r.thr, r.gt[r.list[i].g], r.d[r.list[i].g])>>,
      <<"first-entry-is-the-closest-match", (r.ok /\ Len(r.list) > 0) => r.list[1].g = r.closest_g>> >>
+
+\* the list of a query run against a real database (any layout of the signature file, any chunk size): the distance vector is
+\* recomputed by TLC from the nucleotide sequences of the query and of every reference genome, in reference (genome) order
+RunClauses(db, d, run) ==
+  ClItem([ok |-> run.ok, d |-> d, N |-> run.N, list |-> run.list, closest_g |-> run.closest_g,
+          parent |-> db.parent, thr |-> db.thr, gt |-> db.gt])
+
+ClDb(r) ==
+  LET d == RowDists(r.db, r.probe)
+      per == [x \in DOMAIN r.runs |-> Failed(RunClauses(r.db, d, r.runs[x]))]
+      names == <<"no-error", "length-is-min-N-nrefs", "ordered-by-distance-then-reference-order", "exact-distances",
+                 "taxon-assigned-by-distance-alone", "first-entry-is-the-closest-match">>
+  IN [c \in DOMAIN names |-> <<names[c], \A x \in DOMAIN r.runs : \A j \in DOMAIN per[x] : per[x][j] # names[c]>>]
+
+Clauses(r) == IF r.op = "db" THEN ClDb(r) ELSE ClItem(r)
 
 ASSUME PrintT(ToJson(Verdict(Recs, Clauses)))
 =============================================================================
